@@ -51,6 +51,8 @@ def check(ctx) -> Result:
     an = ctx.ix.module(AN).classes.get("Analyzer")
     rv_validate.loop_validation(ctx, res, an.methods["_process_inputs"], "inputs", "n_modes", label="Analyzer._process_inputs:inputs", need_type=False)
     from ..rules import rf_cache as _rf
+    for _cn in ("Sampler", "QuickSampler"):
+        _rf.f1_f4(ctx, res, ctx.ix.cls(_cn))
     n7 = 0
     for _cn in ['Simulator', 'Sampler', 'QuickSampler', 'Analyzer']:
         n7 += _rf.f7_setters_store_the_object(ctx, res, ctx.ix.cls(_cn))
